@@ -21,6 +21,7 @@ mod c14;
 mod c15;
 mod c17;
 mod c19;
+mod c20;
 mod c16;
 mod c18;
 pub mod util;
@@ -90,6 +91,8 @@ fn run_lines() {
             "schema" => c15::schema(&mut t),
             "authz" => c17::authz(&mut t),
             "backup" => c19::backup(&mut t),
+            "pool" => c20::pool(&mut t),
+            "mix" => c20::mix(&mut t),
             "ro" => c17::ro(&mut t),
             "authzdbg" => c17::authzdbg(&mut t),
             "ltx" => c07::ltx(&mut t),
